@@ -151,4 +151,24 @@ theorem afterClose_of {l : List WFrame} (h : ∀ w ∈ l.dropLast, w.f.typ ≠ t
         exact h w (by simp only [List.dropLast]; exact List.mem_cons_of_mem _ hw)
 
 
+/-! ## the error channel of Connect never overflows -/
+
+/-- every loop reports at most once: the reports still queued never outnumber the loops that have exited -/
+def ErrsInv (s : St) : Prop := s.errs.length ≤ exitedCount s
+
+theorem errsInv_step (s : St) (a : Act) (hl : Life s) (h : ErrsInv s) : ErrsInv (step s a) := by
+  unfold step; split
+  · rename_i he
+    unfold ErrsInv at h ⊢
+    have l1 := hl.notAcc
+    have l2 := hl.setup
+    cases a <;> (try simp [enabled] at he) <;> (simp only [eff, leave]; repeat' split) <;> (try simp only [setC]) <;>
+      grind [exitedCount, Rd.isExited, Wr.isExited, connSetup]
+  · exact h
+
+theorem errsInv_reachable {s : St} (h : Reachable s) : ErrsInv s := by
+  induction h with
+  | init => simp [ErrsInv, init, exitedCount, Rd.isExited, Wr.isExited]
+  | step a hr ih => exact errsInv_step _ a (life_reachable hr) ih
+
 end LLRP.LTS
